@@ -274,4 +274,5 @@ def run(ctx):
     from . import c15 as _c15
     ctx.do(_c15.r15_4)  # message-set keys denote what the set denotes everywhere
     ctx.do(c10.r10_2)  # a STORE is not admitted beside a running SEARCH
+    ctx.do(c10.r10_1)  # the search walks the mailbox under its admission
     ctx.trust("frozen: RFC 3501 6.4.4 search key list; operator table BEFORE< ON== SINCE>= SENTBEFORE< SENTON== SENTSINCE>= LARGER> SMALLER<")
